@@ -128,12 +128,12 @@ def main():
             signal.setitimer(signal.ITIMER_VIRTUAL, budget)
             try:
                 if case["via_path"]:
-                    path = os.path.join(workdir, f"c20_{os.getpid()}.{fmt if fmt != 'stl_ascii' else 'stl'}")
+                    path = os.path.join(workdir, f"c20_{os.getpid()}.{ {'stl_ascii': 'stl', 'ply_ascii': 'ply'}.get(fmt, fmt) }")
                     with open(path, "wb") as f:
                         f.write(data)
                     result = fn(path) if fmt != "stl_ascii" else fn(path, file_type="stl_ascii")
                 else:
-                    result = fn(wrap_as_stream(data), file_type=fmt)
+                    result = fn(wrap_as_stream(data), file_type="ply" if fmt == "ply_ascii" else fmt)
                 res["status"] = "ok"
                 res["kind"] = type(result).__name__
             finally:
